@@ -259,16 +259,17 @@ package estargz
 //@   loop 1 step[C03] len(set) >= prev(len(set)) && len(set) <= prev(len(set)) + 1 && len(set[prev(len(set))-1]) == prev(len(set[len(set)-1])) + 1 && set[prev(len(set))-1][len(set[prev(len(set))-1])-1] == e && (len(set) > prev(len(set)) ==> len(set[len(set)-1]) == 0)
 //@   ensures[C03] len(set) >= 1
 
-//@ pure wsOK(ws []*Writer) bool = forall k int :: 0 <= k && k < len(ws) ==> ws[k] != nil && ws[k].toc != nil && ws[k].cw != nil && ws[k].bw != nil && ws[k].compressor != nil && (forall j int :: 0 <= j && j < len(ws[k].toc.Entries) ==> ws[k].toc.Entries[j] != nil) && (len(ws[k].toc.Entries) > 0 ==> !fresh(ref(ws[k].toc.Entries))) && !fresh(ws[k].toc)
+//@ pure wsOK(ws []*Writer) bool = forall k int :: 0 <= k && k < len(ws) ==> ws[k] != nil && ws[k].toc != nil && ws[k].cw != nil && ws[k].bw != nil && ws[k].compressor != nil && (forall j int :: 0 <= j && j < len(ws[k].toc.Entries) ==> ws[k].toc.Entries[j] != nil)
+//@ pure wsOld(ws []*Writer) bool = forall k int :: 0 <= k && k < len(ws) ==> (len(ws[k].toc.Entries) > 0 ==> !fresh(ref(ws[k].toc.Entries))) && !fresh(ws[k].toc)
 // closeWithCombine: an entry that carries data is re-based by the bytes of the writers before its own; offsets stay
 // positions inside the combined blob.
 //@ func closeWithCombine
 //@   props C03
 //@   arith math
-//@   requires wsOK(ws)
-//@   loop 0 invariant[C03] wsOK(ws)
-//@   loop 1 invariant[C03] wsOK(ws) && mtoc != nil && fresh(mtoc) && (cap(mtoc.Entries) == 0 || fresh(ref(mtoc.Entries)))
-//@   loop 2 invariant[C03] wsOK(ws) && mtoc != nil && fresh(mtoc) && (cap(mtoc.Entries) == 0 || fresh(ref(mtoc.Entries))) && w != nil && w.toc != nil && w.cw != nil && (forall j int :: 0 <= j && j < len(rangeslice) ==> rangeslice[j] != nil) && (len(rangeslice) > 0 ==> !fresh(ref(rangeslice)))
+//@   requires wsOK(ws) && wsOld(ws)
+//@   loop 0 invariant[C03] wsOK(ws) && wsOld(ws)
+//@   loop 1 invariant[C03] wsOK(ws) && wsOld(ws) && mtoc != nil && fresh(mtoc) && (cap(mtoc.Entries) == 0 || fresh(ref(mtoc.Entries)))
+//@   loop 2 invariant[C03] wsOK(ws) && wsOld(ws) && mtoc != nil && fresh(mtoc) && (cap(mtoc.Entries) == 0 || fresh(ref(mtoc.Entries))) && w != nil && w.toc != nil && w.cw != nil && (forall j int :: 0 <= j && j < len(rangeslice) ==> rangeslice[j] != nil) && (len(rangeslice) > 0 ==> !fresh(ref(rangeslice)))
 //@   loop 2 step[C03] len(mtoc.Entries) == prev(len(mtoc.Entries)) + 1 && mtoc.Entries[len(mtoc.Entries)-1] == e && e.Offset == prevmem(e.Offset) + (((e.Type == "reg" && e.Size > 0) || e.Type == "chunk") ? currentOffset : 0)
 
 // Build: the sub-blob workers report at most one error each into errCh, which is drained only after all of them have
@@ -286,5 +287,8 @@ package estargz
 //@ func Build
 //@   props C04,C03
 //@   requires tarBlob != nil && (forall j int :: 0 <= j && j < len(opt) ==> opt[j] != nil)
+//@   loop 1 invariant layerFiles != nil
+//@   loop 2 invariant layerFiles != nil
+//@   loop 3 invariant layerFiles != nil
 //@   assert[C04] before "wg.Wait()" : cap(errCh) >= len(tarParts)
 //@   assume before "tocAndFooter, tocDgst, err := closeWithCombine(writers...)" : wsOK(writers) && (forall j int :: 0 <= j && j < len(payloads) ==> payloads[j] != nil)
